@@ -71,10 +71,17 @@ def bounds(tier):
     return {"a_menu": [m[0] for m in A_MENU], "a_max_statements": _MAXA[tier], "b_variants": list(B_VARIANTS), "init_menu": [m[0] for m in (INIT_MENU + (INIT_MENU_EXTRA if tier == "thorough" else []))]}
 
 
+CORE_INITS = ["none", "wild-rel-a", "from-a-x", "wild-a-then-def-x", "wild-a-wild-b", "from-dot-a-all"]
+
+
 def all_cases(tier):
-    inits = INIT_MENU + (INIT_MENU_EXTRA if tier == "thorough" else [])
     labels = [m[0] for m in A_MENU]
     for n in range(0, _MAXA[tier] + 1):
+        # thorough: three-statement bodies of `a` meet the six core __init__ statements, shorter ones the whole (extended) menu
+        if tier == "thorough":
+            inits = [i for i in INIT_MENU if i[0] in CORE_INITS] if n == 3 else INIT_MENU + INIT_MENU_EXTRA
+        else:
+            inits = INIT_MENU
         for sel in itertools.permutations(labels, n):
             if not _plausible(sel):
                 continue
